@@ -19,7 +19,27 @@ def n_range(tier, D):
     return {1: range(1, 65), 2: range(1, 33), 3: range(1, 13)}[D]
 
 
+def _xcheck_generated_layout(ctx):
+    """the REGENERATED layout helpers (Gen.SpectralLayout.*, incl. the translator's semantics of the numpy primitives),
+    evaluated by `lean --run`, against the arrays the implementation builds: exact, entry by entry, ij and xy indexing"""
+    import os
+    import subprocess
+    import sys
+    here = os.path.dirname(os.path.dirname(os.path.abspath(__file__)))
+    script = os.path.join(here, "xcheck_translate_layout.py")
+    if not os.path.exists(script):
+        return
+    p = subprocess.run([sys.executable, script], capture_output=True, text=True, timeout=900)
+    ctx.count(("generated_layout_xcheck",), True, n=1)
+    tail = (p.stdout + p.stderr).strip().splitlines()[-3:]
+    if p.returncode != 0:
+        ctx.mismatch("regenerated layout helpers (Gen.SpectralLayout) vs the implementation's arrays", {"output": tail})
+    else:
+        ctx.notes.append("generated layout cross-check: " + (tail[-1] if tail else "ok"))
+
+
 def correspondence(ctx):
+    _xcheck_generated_layout(ctx)
     import jax.numpy as jnp
     import exponax as ex
     sp = _sp()
